@@ -68,9 +68,11 @@ class CreateTableStatementGetter(abc.ABC):
 
     def save_to_disk(self, full_table_name: str, sql: str) -> None:
         """从本地磁盘读取暂存的建表语句"""
-        self._disk_cache.add(full_table_name)
-        with open(os.path.join(self._disk_path, f"{full_table_name}.sql"), "w", encoding="UTF-8", newline="") as file:
+        path = os.path.join(self._disk_path, f"{full_table_name}.sql")
+        with open(path + ".tmp", "w", encoding="UTF-8", newline="") as file:
             file.write(sql)
+        os.replace(path + ".tmp", path)
+        self._disk_cache.add(full_table_name)
 
     @abc.abstractmethod
     def get_sql(self, full_table_name: str) -> str:
